@@ -1,5 +1,6 @@
 #!/bin/bash
 # usage: tools/run_mutants.sh [pattern]   -- applies each mutants/<PROP>-*.diff to /repo, runs ./check PROP quick, expects exit 1, reverts.
+export VERIF_EVIDENCE_DIR=/verif/.work/evidence-modified-tree   # keep /verif/evidence for runs on the unchanged tree
 cd /verif
 for d in mutants/${1:-}*.diff; do
   prop=$(basename $d | cut -d- -f1)
